@@ -208,3 +208,17 @@ def annotation_sets(i, v):
 
 
 ROUTES = ["d", "c", "j", "b", "a", "h"]
+
+
+# special values of fields the preimage only copies: the null (coinbase) outpoint and each half of it, at every position
+Z32 = bytes(32)
+CB_SCRIPT = bytes.fromhex("04ffff001d0104")          # coinbase data (arbitrary bytes)
+COINBASE_TXS = [
+    build_tx(0xFFFFFFFF, [(Z32, 0xFFFFFFFF, CB_SCRIPT, 0xFFFFFFFF), (Z32, 0, b"", 0), (tid(41), 0xFFFFFFFF, b"\x51", 0xFFFFFFFE)],
+             [(0, b""), (U64 - 1, b""), (0, P2(6))], 0),
+    build_tx(0, [(tid(42), 0xFFFFFFFF, b"", 0xFFFFFFFE), (Z32, 0xFFFFFFFF, b"\x51\xab", 0), (Z32, 0xFFFFFFFF, b"\x51\xab", 0)],      # null outpoint twice
+             [(U64 - 1, P2(7)), (0, b""), (0, b"")], 0xFFFFFFFF),
+    build_tx(1, [(Z32, 5, b"", 0xFFFFFFFF), (tid(43), 0, b"", 0xFFFFFFFF), (Z32, 0xFFFFFFFF, b"\x00", 0xFFFFFFFF)],
+             [(50 * 10 ** 8, P2(8))], 0),
+    build_tx(1, [(Z32, 0xFFFFFFFF, CB_SCRIPT, 0xFFFFFFFF)], [(50 * 10 ** 8, P2(9))], 0),                                           # a real coinbase shape
+]
